@@ -33,14 +33,15 @@ def main():
     no_tests = '--no-tests' in sys.argv
     only_own = '--only-own' in sys.argv
     src = os.path.join(wt, 'seeded', n)
-    dst = os.path.join(VERIF, 'seeded', f'{pid}-{n}')
+    label = next((a.split('=', 1)[1] for a in sys.argv if a.startswith('--label=')), n)
+    dst = os.path.join(VERIF, 'seeded', f'{pid}-{label}')
     os.makedirs(dst, exist_ok=True)
     for f in ('patch.diff', 'demo.py', 'notes.md'):
         if os.path.exists(os.path.join(src, f)):
             shutil.copy(os.path.join(src, f), os.path.join(dst, f))
     scratch = tempfile.mkdtemp(prefix='seedwt_')
     os.rmdir(scratch)
-    meta = {'property': pid, 'seed': n, 'repo_head': sh('git -C /repo rev-parse --short HEAD')[1].strip()}
+    meta = {'property': pid, 'seed': label, 'repo_head': sh('git -C /repo rev-parse --short HEAD')[1].strip()}
     try:
         rc, out = sh(f'git -C /repo worktree add -q --detach {scratch} HEAD')
         assert rc == 0, out
@@ -80,7 +81,7 @@ def main():
         shutil.rmtree(scratch, ignore_errors=True)
         with open(os.path.join(dst, 'meta.json'), 'w') as fh:
             json.dump(meta, fh, indent=1)
-        print(pid, n, 'demo(with,without)=', meta.get('demo_with_change_rc'), meta.get('demo_without_change_rc'),
+        print(pid, label, 'demo(with,without)=', meta.get('demo_with_change_rc'), meta.get('demo_without_change_rc'),
               'suite=', meta.get('suite_with_change', {}).get('summary'), 'caught_by=', meta.get('caught_by'),
               'errors=', meta.get('harness_errors'))
     return meta
